@@ -175,6 +175,15 @@ def Err.name : Err → String
   | .diffDuplicate => "diff-duplicate" | .diffNewExpiry => "diff-new-expiry" | .diffNewVersion => "diff-new-version"
   | .nodeFilter => "node-filter" | .panic => "panic"
 
+/-- The outcome kind observable without reading error texts: sentinel error / error type (`ErrInvalidBatchHeightHint`,
+`*ErrVersionMismatch`, `ErrMismatchErr`), or which collaborator failed (order store, account store, wallet); every other
+plain error is `other`. -/
+def Err.kind : Err → String
+  | .parse => "parse" | .version => "version" | .height => "height"
+  | .orderNotFound => "order-not-found" | .acctNotFound => "acct-not-found" | .chanDerive => "chan-derive"
+  | .acctKeyParse => "other" | .nodeFilter => "other" | .panic => "panic"
+  | _ => "mismatch"
+
 /-! ## `order/batch.go`: batch version predicates -/
 
 /-- `bv & LinearVersionEnd` -/
